@@ -14,7 +14,9 @@
 #include <unistd.h>
 
 #include <algorithm>
+#include <cstring>
 #include <atomic>
+#include <condition_variable>
 #include <functional>
 #include <mutex>
 #include <string>
@@ -310,6 +312,318 @@ inline bool h5_canon(const std::string &file, H5Canon &c, const std::vector< std
   H5Fclose(f);
   return true;
 }
+
+// ---------------------------------------------------------------------------
+// The HDF5 library (serial build) is not thread safe, and reading a few
+// thousand snapshots under one mutex was what the wall time of the whole part
+// was spent on. The snapshots of a run directory are therefore canonicalised
+// in another process (the helpers of RunServer below; a forked child when no
+// helper is left; by hand with `<exe> --canon <dir>`), which writes
+// <dir>/canon.bin; the worker threads of the harness never call HDF5.
+// ---------------------------------------------------------------------------
+inline void put_u64(std::string &s, uint64_t v) { s.append(reinterpret_cast< const char * >(&v), 8); }
+inline bool get_u64(const std::string &s, size_t &off, uint64_t &v) {
+  if (off + 8 > s.size())
+    return false;
+  memcpy(&v, s.data() + off, 8);
+  off += 8;
+  return true;
+}
+inline bool get_str(const std::string &s, size_t &off, std::string &out) {
+  uint64_t n;
+  if (!get_u64(s, off, n) || off + n > s.size())
+    return false;
+  out = s.substr(off, n);
+  off += n;
+  return true;
+}
+
+/// snapshot index of a file name snap_NNN.hdf5, or -1
+inline int snapshot_index(const std::string &f) {
+  if (f.compare(0, 5, "snap_") == 0 && f.size() > 10 && f.substr(f.size() - 5) == ".hdf5")
+    return atoi(f.substr(5, f.size() - 10).c_str());
+  return -1;
+}
+
+/// child side: canonical content of every snapshot in dir -> dir/canon.bin
+inline int canon_main(const std::string &dir, const std::vector< std::string > &skip) {
+  std::string out;
+  std::vector< std::pair< int, H5Canon > > all;
+  for (auto &f : list_dir(dir)) {
+    const int idx = snapshot_index(f);
+    if (idx < 0)
+      continue;
+    H5Canon hc;
+    if (!h5_canon(dir + "/" + f, hc, skip)) {
+      hc = H5Canon();
+      hc.text = "<unreadable>";
+    }
+    all.push_back({idx, hc});
+  }
+  put_u64(out, all.size());
+  for (auto &a : all) {
+    put_u64(out, (uint64_t)a.first);
+    put_u64(out, a.second.text.size());
+    out += a.second.text;
+    put_u64(out, a.second.entries.size());
+    for (size_t i = 0; i < a.second.entries.size(); ++i) {
+      put_u64(out, a.second.entries[i].size());
+      out += a.second.entries[i];
+      put_u64(out, a.second.entry_offsets[i]);
+    }
+    put_u64(out, a.second.skipped.size());
+  }
+  write_file(dir + "/canon.bin", out);
+  return 0;
+}
+
+/// parent side
+inline bool canon_read(const std::string &file, std::vector< std::pair< int, H5Canon > > &all) {
+  const std::string s = verif::read_file(file);
+  size_t off = 0;
+  uint64_t n;
+  if (!get_u64(s, off, n) || n > 100000)
+    return false;
+  for (uint64_t i = 0; i < n; ++i) {
+    uint64_t idx, ne, off_e, nskip;
+    H5Canon hc;
+    if (!get_u64(s, off, idx) || !get_str(s, off, hc.text) || !get_u64(s, off, ne) || ne > 1000000)
+      return false;
+    for (uint64_t e = 0; e < ne; ++e) {
+      std::string name;
+      if (!get_str(s, off, name) || !get_u64(s, off, off_e))
+        return false;
+      hc.entries.push_back(name);
+      hc.entry_offsets.push_back(off_e);
+    }
+    if (!get_u64(s, off, nskip))
+      return false;
+    hc.skipped.resize(nskip);
+    all.push_back({(int)idx, hc});
+  }
+  return off == s.size();
+}
+
+/// run f in a forked child (no exec) and wait for it; the child leaves with
+/// _exit so that nothing of the parent (stdio buffers, temporary directories)
+/// is flushed or removed twice. Only used for the snapshot reader: the parent
+/// never calls HDF5, so the library state the child inherits is untouched.
+inline RunResult run_forked(const std::function< int() > &f, double timeout_s) {
+  RunResult r;
+  auto t0 = std::chrono::steady_clock::now();
+  pid_t pid = fork();
+  if (pid < 0) {
+    perror("fork");
+    exit(3);
+  }
+  if (pid == 0)
+    _exit(f());
+  int status = 0;
+  for (;;) {
+    pid_t w = waitpid(pid, &status, WNOHANG);
+    if (w == pid)
+      break;
+    double el = std::chrono::duration< double >(std::chrono::steady_clock::now() - t0).count();
+    if (el > timeout_s) {
+      kill(pid, SIGKILL);
+      waitpid(pid, &status, 0);
+      r.timed_out = true;
+      break;
+    }
+    usleep(el < 0.2 ? 500 : 10000);
+  }
+  r.wall = std::chrono::duration< double >(std::chrono::steady_clock::now() - t0).count();
+  if (r.timed_out)
+    r.exit_code = -2;
+  else if (WIFEXITED(status))
+    r.exit_code = WEXITSTATUS(status);
+  else if (WIFSIGNALED(status))
+    r.exit_code = 128 + WTERMSIG(status);
+  return r;
+}
+
+// ---------------------------------------------------------------------------
+// Run servers. Creating a few thousand processes from a parent with 16 busy
+// threads and the reference data in memory is expensive (every fork write
+// protects the whole address space of the parent, whose threads then fault
+// page by page). The harness therefore forks a small number of single threaded
+// helper processes at the very start of main() - before any thread exists and
+// before anything is allocated - and the worker threads hand each run to one of
+// them: the helper starts the simulation (fork + exec from a small process),
+// waits for it, canonicalises the snapshots the run left in its directory
+// (HDF5 is only ever used inside the helpers) and answers with the exit status.
+// If a helper dies the caller falls back to doing the same work itself.
+// ---------------------------------------------------------------------------
+struct ServedRun {
+  RunResult rr;          // of the simulation
+  double canon_wall = 0.;
+  bool canon_ok = false;
+  bool served = false;   // false: no helper available, nothing was run
+};
+
+class RunServer {
+  struct Helper {
+    pid_t pid = -1;
+    int to = -1, from = -1;
+    bool busy = false, dead = false;
+  };
+  std::vector< Helper > _helpers;
+  std::mutex _mtx;
+  std::condition_variable _cv;
+
+  static bool read_line(int fd, std::string &line) {
+    line.clear();
+    char ch;
+    for (;;) {
+      ssize_t n = read(fd, &ch, 1);
+      if (n == 1) {
+        if (ch == '\n')
+          return true;
+        line += ch;
+      } else if (n < 0 && errno == EINTR) {
+        continue;
+      } else {
+        return false;
+      }
+    }
+  }
+  static bool write_all(int fd, const std::string &s) {
+    size_t off = 0;
+    while (off < s.size()) {
+      ssize_t n = write(fd, s.data() + off, s.size() - off);
+      if (n < 0 && errno == EINTR)
+        continue;
+      if (n <= 0)
+        return false;
+      off += (size_t)n;
+    }
+    return true;
+  }
+  static std::vector< std::string > split(const std::string &s, char sep) {
+    std::vector< std::string > out(1);
+    for (char c : s) {
+      if (c == sep)
+        out.emplace_back();
+      else
+        out.back() += c;
+    }
+    return out;
+  }
+
+  [[noreturn]] static void helper_loop(int in, int out, const std::vector< std::string > &skip) {
+    std::string line;
+    while (read_line(in, line)) {
+      // dir \x1f logname \x1f timeout \x1f argv0 \x1f argv1 ...
+      std::vector< std::string > f = split(line, '\x1f');
+      if (f.size() < 4)
+        break;
+      std::vector< std::string > argv(f.begin() + 3, f.end());
+      RunResult rr = run_in(f[0], argv, f[1], atof(f[2].c_str()));
+      auto t0 = std::chrono::steady_clock::now();
+      const int c = canon_main(f[0], skip);
+      const double cw = std::chrono::duration< double >(std::chrono::steady_clock::now() - t0).count();
+      if (!write_all(out, verif::fmt("%d %d %.9g %.9g %d\n", rr.exit_code, (int)rr.timed_out, rr.wall, cw, c)))
+        break;
+    }
+    _exit(0);
+  }
+
+public:
+  /// call before any thread is started
+  void start(unsigned n, const std::vector< std::string > &skip) {
+    signal(SIGPIPE, SIG_IGN);
+    for (unsigned i = 0; i < n; ++i) {
+      int req[2], rep[2];
+      if (pipe2(req, O_CLOEXEC) != 0 || pipe2(rep, O_CLOEXEC) != 0)
+        break;
+      pid_t pid = fork();
+      if (pid < 0) {
+        close(req[0]);
+        close(req[1]);
+        close(rep[0]);
+        close(rep[1]);
+        break;
+      }
+      if (pid == 0) {
+        // the ends of the helpers started before this one belong to the parent
+        for (auto &h : _helpers) {
+          close(h.to);
+          close(h.from);
+        }
+        close(req[1]);
+        close(rep[0]);
+        helper_loop(req[0], rep[1], skip);
+      }
+      close(req[0]);
+      close(rep[1]);
+      Helper h;
+      h.pid = pid;
+      h.to = req[1];
+      h.from = rep[0];
+      _helpers.push_back(h);
+    }
+  }
+  size_t size() const { return _helpers.size(); }
+
+  ServedRun run(const std::string &dir, const std::vector< std::string > &argv, const std::string &logname,
+                double timeout_s) {
+    ServedRun r;
+    int idx = -1;
+    {
+      std::unique_lock< std::mutex > lk(_mtx);
+      for (;;) {
+        bool any_alive = false;
+        for (size_t i = 0; i < _helpers.size(); ++i) {
+          any_alive = any_alive || !_helpers[i].dead;
+          if (!_helpers[i].dead && !_helpers[i].busy) {
+            idx = (int)i;
+            break;
+          }
+        }
+        if (idx >= 0 || !any_alive)
+          break;
+        _cv.wait(lk);
+      }
+      if (idx < 0)
+        return r;
+      _helpers[idx].busy = true;
+    }
+    std::string req = dir + '\x1f' + logname + '\x1f' + verif::fmt("%.3f", timeout_s);
+    for (auto &a : argv)
+      req += '\x1f' + a;
+    req += '\n';
+    std::string line;
+    bool ok = write_all(_helpers[idx].to, req) && read_line(_helpers[idx].from, line);
+    int tmo = 0, cok = 1;
+    if (ok)
+      ok = sscanf(line.c_str(), "%d %d %lf %lf %d", &r.rr.exit_code, &tmo, &r.rr.wall, &r.canon_wall, &cok) == 5;
+    {
+      std::lock_guard< std::mutex > lk(_mtx);
+      _helpers[idx].busy = false;
+      if (!ok)
+        _helpers[idx].dead = true;
+    }
+    _cv.notify_all();
+    if (!ok)
+      return r; // the caller repeats the run itself
+    r.rr.timed_out = tmo != 0;
+    r.canon_ok = cok == 0;
+    r.served = true;
+    return r;
+  }
+
+  void stop() {
+    for (auto &h : _helpers) {
+      close(h.to);
+      close(h.from);
+    }
+    for (auto &h : _helpers) {
+      int st;
+      waitpid(h.pid, &st, 0);
+    }
+    _helpers.clear();
+  }
+};
 
 /// name of the first entry in which two canonical strings differ
 inline std::string h5_first_difference(const H5Canon &a, const H5Canon &b) {
